@@ -72,9 +72,47 @@ async fn run<const N: usize>(d: &mut Driver<N>, ops: &[Op], limit: u64) -> Out {
         }
         // events recorded up to the moment the call returned: what the call itself guarantees, before the
         // worker's follow-up work (the index dump of a closed blob syncs the blob once more)
-        let returned_at = tap::count(&d.dir);
-        if !d.st().verif_barrier(true).await {
-            bail!(Mismatch { class: crate::drive::Class::Worker, sig: "worker-dead".into(), detail: "worker dead".into(), step: d.step });
+        let mut returned_at = tap::count(&d.dir);
+        // the barrier waits for the background sync task. Normally that takes milliseconds; if it is still pending
+        // after 5 s the trace is looked at: hundreds of syncs of blob files without a single write in between mean that
+        // the background sync does not converge (it would also keep close() from returning)
+        let barrier_ok = {
+            let fut = d.st().verif_barrier(true);
+            tokio::pin!(fut);
+            let (syncs0, writes0) = (trace.syncs_seen, trace.writes_seen);
+            let mut ticks = 0u32;
+            loop {
+                tokio::select! {
+                    r = &mut fut => break Some(r),
+                    _ = tokio::time::sleep(std::time::Duration::from_millis(500)) => {
+                        ticks += 1;
+                        if ticks >= 10 {
+                            let ev = tap::drain(&d.dir);
+                            trace.feed(&ev);
+                            returned_at = 0;
+                            if trace.syncs_seen - syncs0 >= 200 && trace.writes_seen == writes0 {
+                                break None;
+                            }
+                            if ticks >= 240 {
+                                break Some(false);
+                            }
+                        }
+                    }
+                }
+            }
+        };
+        match barrier_ok {
+            Some(true) => {}
+            Some(false) => bail!(Mismatch { class: crate::drive::Class::Worker, sig: "worker-dead".into(), detail: "worker dead or barrier pending for 120 s".into(), step: d.step }),
+            None => {
+                out.violation = Some(("c12/background-sync-does-not-converge".into(), format!("after step {} ({}) the worker's background sync task did not finish within 5 s and issued {} syncs without any write in between (dirty-byte limit {}): it syncs forever", d.step, op.short(), trace.syncs_seen, limit)));
+                let ev = tap::disarm(&d.dir);
+                trace.feed(&ev);
+                fill(&mut out, &trace);
+                // the storage is left as it is: its close() would wait for the same task
+                std::mem::forget(d.storage.take());
+                return out;
+            }
         }
         let ev = tap::drain(&d.dir);
         if let Op::Close = op {
